@@ -159,6 +159,29 @@ def gen_inputs(tier, rng):
         if i % 6 == 3 and nun + nb <= 14:
             for k in range(nun + nb):
                 yield {"op": "convolve", "m": m, "K": sk(K), "seed": seed, "sparse": False, "basis": k}
+    # directed kernels: a shortcut keyed on a SUMMARY of the kernel (number of non-zero entries, their sum, symmetry ...) is
+    # wrong for these: unit shift kernels (one entry 1, off centre), one non-unit entry, the centred delta, kernels summing to
+    # exactly 1 or 0, constant kernels -- through every operation incl. the whole-frame Kernel2D.convolved_array_from
+    for i in range(60 if tier == "thorough" else 18):
+        kh, kw = rng.choice([(3, 3), (3, 3), (5, 3), (1, 5), (3, 1), (5, 5), (1, 3)])
+        H = rng.randint(kh + 1, min(9, kh + 4)); W = rng.randint(kw + 1, min(9, kw + 4))
+        m = rand_mask(rng, H, W, kh, kw, rng.choice(["random", "random", "full", "ring"]))
+        if m is None: continue
+        K = [[Fraction(0)] * kw for _ in range(kh)]
+        off = [(a, b) for a in range(kh) for b in range(kw) if (a, b) != (kh // 2, kw // 2)]
+        kind = i % 6
+        if kind == 0: a, b = rng.choice(off); K[a][b] = Fraction(1)
+        elif kind == 1: a, b = rng.choice(off + [(kh // 2, kw // 2)]); K[a][b] = Fraction(rng.choice([-2, -1, 2, 3, 1]), rng.choice([1, 2, 4]))
+        elif kind == 2: K[kh // 2][kw // 2] = Fraction(1)
+        elif kind == 3:
+            (a, b), (c, d) = rng.sample(off, 2); K[a][b] = Fraction(1, 4); K[c][d] = Fraction(3, 4)
+        elif kind == 4:
+            K = [[Fraction(v) for v in r] for r in rand_kernel(rng, kh, kw, quarters=True)]
+            a, b = rng.choice(off); K[a][b] += rng.choice([0, 1]) - sum(v for r in K for v in r)
+        else: K = [[Fraction(rng.choice([1, 1, -1, 2]))] * kw for _ in range(kh)]
+        seed = rng.randrange(10 ** 9)
+        for op in ("convolve", "matrix", "whole", "noblur"):
+            yield {"op": op, "m": m, "K": sk(K), "seed": seed, "sparse": bool(i % 2), "vs": 0, "ks": 0}
     # malformed stream: even kernels (incl. mixed parity 3x4, 1x2, 5x6 ...), footprints leaving the frame
     for i in range(60 if tier == "thorough" else 20):
         kh, kw = rng.choice([1, 2, 3, 4, 5]), rng.choice([1, 2, 3, 4, 5])
